@@ -33,8 +33,11 @@ func mkCustom() map[string]*CustomOp {
 			}
 			x, ok1 := a[0].(int64)
 			y, ok2 := a[1].(int64)
-			if !ok1 || !ok2 || x == y {
+			if !ok1 || !ok2 {
 				return nil, ErrCustom
+			}
+			if x == y {
+				return x, ErrCustom
 			}
 			return x - y, nil
 		}},
@@ -44,7 +47,8 @@ func mkCustom() map[string]*CustomOp {
 			}
 			return int64(42), nil
 		}},
-		{Name: "cfail", Fn: func(a []interface{}) (interface{}, error) { return nil, ErrCustom }},
+		// cfail fails the way much Go code does: a non-nil value next to the error (the engine hands both on unchanged)
+		{Name: "cfail", Fn: func(a []interface{}) (interface{}, error) { return int64(-77), ErrCustom }},
 		{Name: "cpos", Fn: func(a []interface{}) (interface{}, error) { // int -> bool
 			if len(a) != 1 {
 				return nil, ErrCustom
